@@ -5,6 +5,7 @@ use crate::engine::*;
 use crate::job::*;
 use crate::systems::map_mv::{self as mm, MapMv};
 use crate::systems::map_or::{self as mo, MapOr};
+use crate::systems::map_map::{self as m2, MapMap};
 use crate::systems::mvreg::{self as mv, Mv};
 use crate::systems::orswot::{self as so, Or};
 use crate::systems::glist::{self as gl, Gl};
@@ -94,6 +95,19 @@ impl Plan for MapOr {
     const DISC: Disc = Disc::Fifo;
 }
 
+impl Plan for MapMap {
+    fn alphabet() -> Vec<Cmd> {
+        vec![cmd(m2::ADD, 0, 0), cmd(m2::ADD, 0, 1), cmd(m2::RM_MEMBER, 0, 0), cmd(m2::RM_INNER, 0, 0), cmd(m2::RM_OUTER, 0, 0), cmd(m2::ADD, 0, 2), cmd(m2::ADD, 1, 0)]
+    }
+    fn n(q: bool, _heavy: bool) -> usize {
+        if q {
+            3
+        } else {
+            4
+        }
+    }
+    const DISC: Disc = Disc::Fifo;
+}
 impl Plan for Vc {
     fn alphabet() -> Vec<Cmd> {
         vec![cmd(sp::INC, 0, 0)]
@@ -222,19 +236,26 @@ pub fn jobs(prop: &str, tier: &str) -> Vec<Box<dyn JobT>> {
     match prop {
         // op-based convergence under causal delivery
         "C01" => {
-            each!([Vc, Gc, Pn, Gs, Lww, Mx, Mn, Mv, Or, MapMv, MapOr, Gl, Mk], |Y| job::<Y>(plan_cfg::<Y>("ops", q, false, Disc::Causal, false), Converge { closed_only: false, merge_vs_ops: false }));
+            each!([Vc, Gc, Pn, Gs, Lww, Mx, Mn, Mv, Or, MapMv, MapOr, MapMap, Gl, Mk], |Y| job::<Y>(plan_cfg::<Y>("ops", q, false, Disc::Causal, false), Converge { closed_only: false, merge_vs_ops: false }));
             j.push(job::<Li>(no_sym(plan_cfg::<Li>("ops", q, false, Disc::Causal, false)), Converge { closed_only: false, merge_vs_ops: false }));
             j.push(job::<Mk>(merkle_dags(if q { 4 } else { 5 }, false), Converge { closed_only: false, merge_vs_ops: false }));
+            // self-check of the lattice reduction against a naive permutation enumerator (machinery, not verdict)
+            each!([Or, MapOr, MapMv], |Y| {
+                let mut c = plan_cfg::<Y>("explorer self-check", true, true, Y::DISC, true);
+                c.label = format!("{} explorer self-check (naive permutations vs lattice) {:?} n<={}", Y::NAME, Y::DISC, c.n);
+                job::<Y>(c, SelfCheck)
+            });
+            j.push(job::<Li>(no_sym(plan_cfg::<Li>("explorer self-check (naive permutations vs lattice)", true, false, Disc::Causal, false)), SelfCheck));
         }
         // merge laws on reachable states (incl. pending removes and earlier merges)
         "C02" => {
-            each!([Vc, Gc, Pn, Gs, Lww, Mx, Mn, Gl, Mk, Or, Mv, MapMv, MapOr], |Y| {
+            each!([Vc, Gc, Pn, Gs, Lww, Mx, Mn, Gl, Mk, Or, Mv, MapMv, MapOr, MapMap], |Y| {
                 let mut c = plan_cfg::<Y>("pool laws", true, true, Y::DISC, true);
                 c.n = if q { 2 } else { 3 };
                 c.label = format!("{} all triples of reachable states, n<={}", Y::NAME, c.n);
                 job::<Y>(c, MergeLaws { triples: true })
             });
-            each!([Vc, Gc, Pn, Gs, Lww, Mx, Mn, Gl, Mk, Or, Mv, MapMv, MapOr], |Y| {
+            each!([Vc, Gc, Pn, Gs, Lww, Mx, Mn, Gl, Mk, Or, Mv, MapMv, MapOr, MapMap], |Y| {
                 let mut c = plan_cfg::<Y>("pool laws", q, true, Y::DISC, true);
                 c.label = format!("{} all pairs of reachable states + merge closure, n<={}", Y::NAME, c.n);
                 job::<Y>(c, Multi::<Y>(vec![Box::new(MergeLaws { triples: false }), Box::new(Converge { closed_only: true, merge_vs_ops: false })]))
@@ -244,30 +265,30 @@ pub fn jobs(prop: &str, tier: &str) -> Vec<Box<dyn JobT>> {
         "C03" => {
             each!([Gc, Pn, Gs, Lww, Mx, Mn, Gl, Mk], |Y| job::<Y>(plan_cfg::<Y>("ops+merge", q, true, Disc::Any, true), Converge { closed_only: false, merge_vs_ops: true }));
             j.push(job::<Mk>(merkle_dags(if q { 4 } else { 5 }, true), Converge { closed_only: false, merge_vs_ops: true }));
-            each!([Or, Mv, MapMv, MapOr], |Y| job::<Y>(plan_cfg::<Y>("ops+merge", q, true, Disc::Causal, true), Converge { closed_only: false, merge_vs_ops: true }));
-            each!([Or, MapMv, MapOr], |Y| job::<Y>(plan_cfg::<Y>("ops+merge", q, true, Disc::Fifo, true), Converge { closed_only: false, merge_vs_ops: true }));
+            each!([Or, Mv, MapMv, MapOr, MapMap], |Y| job::<Y>(plan_cfg::<Y>("ops+merge", q, true, Disc::Causal, true), Converge { closed_only: false, merge_vs_ops: true }));
+            each!([Or, MapMv, MapOr, MapMap], |Y| job::<Y>(plan_cfg::<Y>("ops+merge", q, true, Disc::Fifo, true), Converge { closed_only: false, merge_vs_ops: true }));
         }
         "C04" => {
             j.push(job::<Or>(plan_cfg::<Or>("spec", q, true, Disc::Fifo, true), SpecMatch { cov_everywhere: true, use_cov: true }));
         }
         "C05" => {
-            each!([MapMv, MapOr], |Y| job::<Y>(plan_cfg::<Y>("spec", q, true, Disc::Causal, true), SpecMatch { cov_everywhere: false, use_cov: true }));
-            each!([MapMv, MapOr], |Y| job::<Y>(plan_cfg::<Y>("spec", q, true, Disc::Fifo, false), SpecMatch { cov_everywhere: true, use_cov: true }));
+            each!([MapMv, MapOr, MapMap], |Y| job::<Y>(plan_cfg::<Y>("spec", q, true, Disc::Causal, true), SpecMatch { cov_everywhere: false, use_cov: true }));
+            each!([MapMv, MapOr, MapMap], |Y| job::<Y>(plan_cfg::<Y>("spec", q, true, Disc::Fifo, false), SpecMatch { cov_everywhere: true, use_cov: true }));
         }
         "C06" => {
             j.push(job::<Mv>(plan_cfg::<Mv>("spec", q, true, Disc::Any, true), SpecMatch { cov_everywhere: true, use_cov: true }));
         }
         "C07" => {
-            each!([Or, MapMv, MapOr], |Y| job::<Y>(plan_cfg::<Y>("contexts", q, true, Disc::Fifo, true), Multi::<Y>(vec![Box::new(CtxCheck), Box::new(SpecMatch { cov_everywhere: false, use_cov: true })])));
+            each!([Or, MapMv, MapOr, MapMap], |Y| job::<Y>(plan_cfg::<Y>("contexts", q, true, Disc::Fifo, true), Multi::<Y>(vec![Box::new(CtxCheck), Box::new(SpecMatch { cov_everywhere: false, use_cov: true })])));
             j.push(job::<Mv>(plan_cfg::<Mv>("contexts", q, true, Disc::Any, true), CtxCheck));
         }
         "C08" => {
-            each!([Or, MapMv, MapOr], |Y| job::<Y>(plan_cfg::<Y>("fifo vs causal", q, true, Disc::Fifo, true), Converge { closed_only: true, merge_vs_ops: false }));
+            each!([Or, MapMv, MapOr, MapMap], |Y| job::<Y>(plan_cfg::<Y>("fifo vs causal", q, true, Disc::Fifo, true), Converge { closed_only: true, merge_vs_ops: false }));
             each!([Mv, Vc, Gc, Pn, Gs, Lww, Mx, Mn, Gl, Mk], |Y| job::<Y>(plan_cfg::<Y>("any order", q, true, Disc::Any, true), Converge { closed_only: false, merge_vs_ops: false }));
             j.push(job::<Mk>(merkle_dags(if q { 4 } else { 5 }, true), Converge { closed_only: false, merge_vs_ops: false }));
         }
         "C09" => {
-            each!([Or, MapMv, MapOr], |Y| job::<Y>(plan_cfg::<Y>("dup+stale", q, true, Disc::Fifo, true), DupStale));
+            each!([Or, MapMv, MapOr, MapMap], |Y| job::<Y>(plan_cfg::<Y>("dup+stale", q, true, Disc::Fifo, true), DupStale));
             each!([Mv, Vc, Gc, Pn, Gs, Lww, Mx, Mn, Gl, Mk], |Y| job::<Y>(plan_cfg::<Y>("dup+stale", q, true, Disc::Any, true), DupStale));
             j.push(job::<Li>(no_sym(plan_cfg::<Li>("dup", q, true, Disc::Causal, false)), DupStale));
             j.push(job::<Mk>(merkle_dags(if q { 4 } else { 5 }, true), DupStale));
@@ -305,28 +326,45 @@ pub fn jobs(prop: &str, tier: &str) -> Vec<Box<dyn JobT>> {
                 c.n = 3;
                 job::<Y>(c, ValidateOp)
             });
-            each!([Or, MapMv, MapOr], |Y| job::<Y>(plan_cfg::<Y>("validate_op", q, false, Disc::Fifo, false), ValidateOp));
+            each!([Or, MapMv, MapOr, MapMap], |Y| job::<Y>(plan_cfg::<Y>("validate_op", q, false, Disc::Fifo, false), ValidateOp));
         }
         "C17" => {
-            each!([Or, MapMv, MapOr], |Y| job::<Y>(plan_cfg::<Y>("validate_merge correct use", q, true, Disc::Fifo, true), ValidateMerge { misuse: false }));
+            each!([Or, MapMv, MapOr, MapMap], |Y| job::<Y>(plan_cfg::<Y>("validate_merge correct use", q, true, Disc::Fifo, true), ValidateMerge { misuse: false }));
         }
         "C18" => {
-            each!([Vc, Gc, Pn, Or, Mv, MapMv, MapOr], |Y| {
+            // every clock of the grid (3 actors x counters 0..=2: below, above and concurrent with the state's clock)
+            each!([Vc, Gc, Pn, Or, Mv, MapMv, MapOr, MapMap], |Y| {
+                let mut c = plan_cfg::<Y>("reset_remove + composition", true, true, Y::DISC, true);
+                c.n = if q { 2 } else { 3 };
+                c.label = format!("{} reset_remove with every grid clock, composition of every clock pair, {:?}+merge n<={}", Y::NAME, Y::DISC, c.n);
+                job::<Y>(c, ResetRemoveCheck { actors: 3, max_counter: 2, compose: true })
+            });
+            each!([Vc, Gc, Pn, Or, Mv, MapMv, MapOr, MapMap], |Y| {
                 let mut c = plan_cfg::<Y>("reset_remove", true, true, Y::DISC, true);
-                if !q {
-                    c.n += 1;
-                    c.label = c.label.replace("n<=3", "n<=4");
-                }
-                job::<Y>(c, ResetRemoveCheck { actors: 3, max_counter: 2 })
+                c.n = if q { 3 } else { 4 };
+                c.label = format!("{} reset_remove with every grid clock, {:?}+merge n<={}", Y::NAME, Y::DISC, c.n);
+                job::<Y>(c, ResetRemoveCheck { actors: 3, max_counter: 2, compose: false })
             });
         }
         "C19" => {
-            each!([Vc, Gc, Pn, Gs, Lww, Mx, Mn, Gl, Mk, Or, Mv, MapMv, MapOr], |Y| job::<Y>(plan_cfg::<Y>("serde", q, true, Y::DISC, true), SerdeCheck));
-            j.push(job::<Li>(no_sym(plan_cfg::<Li>("serde", q, true, Disc::Causal, false)), SerdeCheck));
-            j.push(job::<Mk>(merkle_dags(if q { 4 } else { 5 }, true), SerdeCheck));
+            // save/restore at every state; resume with every op and every merge partner (n small), with every op (n larger)
+            each!([Vc, Gc, Pn, Gs, Lww, Mx, Mn, Gl, Mk, Or, Mv, MapMv, MapOr, MapMap], |Y| {
+                let mut c = plan_cfg::<Y>("serde", true, true, Y::DISC, true);
+                c.n = if q { 2 } else { 3 };
+                c.label = format!("{} save/restore everywhere, resume with all ops and merges, {:?}+merge n<={}", Y::NAME, Y::DISC, c.n);
+                job::<Y>(c, SerdeCheck { resume_merge: true })
+            });
+            each!([Vc, Gc, Pn, Gs, Lww, Mx, Mn, Gl, Mk, Or, Mv, MapMv, MapOr, MapMap], |Y| {
+                let mut c = plan_cfg::<Y>("serde", true, true, Y::DISC, true);
+                c.n = if q { 3 } else { 4 };
+                c.label = format!("{} save/restore everywhere, resume with all ops, {:?}+merge n<={}", Y::NAME, Y::DISC, c.n);
+                job::<Y>(c, SerdeCheck { resume_merge: false })
+            });
+            j.push(job::<Li>(no_sym(plan_cfg::<Li>("save/restore everywhere, resume with all ops,", q, true, Disc::Causal, false)), SerdeCheck { resume_merge: false }));
+            j.push(job::<Mk>(merkle_dags(if q { 4 } else { 5 }, true), SerdeCheck { resume_merge: q }));
         }
         "C20" => {
-            each!([Or, Mv, MapMv, MapOr, Vc, Gc, Pn, Gs, Lww, Mx, Mn, Gl, Mk], |Y| job::<Y>(plan_cfg::<Y>("== and residue", q, true, Y::DISC, true), EqResidue));
+            each!([Or, Mv, MapMv, MapOr, MapMap, Vc, Gc, Pn, Gs, Lww, Mx, Mn, Gl, Mk], |Y| job::<Y>(plan_cfg::<Y>("== and residue", q, true, Y::DISC, true), EqResidue));
         }
         _ => {}
     }
